@@ -3,7 +3,7 @@
    exactly the table that the reference semantics gives, for all data. *)
 From Coq Require Import List String NArith ZArith Bool Lia Arith.
 From PDT Require Import Base.StableSort Model.Dtype Model.Value Model.Ops Model.Expr Model.RefSem Model.SqlCompile
-     Proofs.SortLemmas Proofs.RefLemmas Proofs.EvalLemmas Proofs.ListRel Proofs.EvalRel.
+     Proofs.SortLemmas Proofs.RefLemmas Proofs.RefKeys Proofs.EvalLemmas Proofs.ListRel Proofs.EvalRel.
 From PDTGen Require Import Catalogue.
 Import ListNotations.
 Open Scope list_scope.
@@ -869,7 +869,7 @@ Definition union_compiled (cl cr : compiled) (rsel : list uid) (distinct : bool)
   let lsel := q_select (c_q cl) in
   {| c_from := FRows (fun d =>
                  let all := f_rows (sem_query d cl) ++ f_rows (sem_query d (with_q cr (set_select (c_q cr) rsel))) in
-                 if distinct then dedup_vals [] all else all);
+                 map (zip_row lsel) (if distinct then dedup_vals [] all else all));
      c_cols := lsel; c_q := q0 lsel;
      c_labels := map (fun u => (u, label (c_labels cl) u)) lsel;
      c_defs := map (fun u => (u, ECol u)) lsel;
@@ -974,6 +974,291 @@ Proof.
     + intros l H. discriminate H.
 Qed.
 
+(* ---------- inner join ---------- *)
+Lemma get_nokey (r : row) u : ~ In u (map fst r) -> get r u = VNull.
+Proof.
+  induction r as [|[k v] r IH]; intros H; [reflexivity|]. simpl.
+  destruct (N.eqb_spec k u) as [E|E]; [exfalso; apply H; left; exact E|]. apply IH. intros C. apply H. right. exact C.
+Qed.
+Lemma get_app_nokey_l (lr rr : row) u : ~ In u (map fst lr) -> get (lr ++ rr) u = get rr u.
+Proof.
+  induction lr as [|[k v] lr IH]; intros H; [reflexivity|]. simpl.
+  destruct (N.eqb_spec k u) as [E|E]; [exfalso; apply H; left; exact E|]. apply IH. intros C. apply H. right. exact C.
+Qed.
+Lemma get_app_nokey_r (lr rr : row) u : ~ In u (map fst rr) -> get (lr ++ rr) u = get lr u.
+Proof.
+  intros H. induction lr as [|[k v] lr IH]; simpl; [apply get_nokey; exact H|].
+  destruct (N.eqb k u); [reflexivity|exact IH].
+Qed.
+
+Lemma disjointb_spec a b : disjointb a b = true -> forall x, In x a -> ~ In x b.
+Proof.
+  unfold disjointb. intros H x Hx C. rewrite forallb_forall in H. specialize (H x Hx).
+  apply mem_u_In in C. rewrite C in H. discriminate H.
+Qed.
+
+(* which FROM columns a compiled query reads: the keys of its FROM rows and the columns mentioned by its
+   inlined definitions are FROM columns *)
+Record Base (c : compiled) : Prop := {
+  b_keys : forall d b x, In b (base_rows d c) -> In x (map fst b) -> In x (c_cols c);
+  b_defs : forall x y, In y (cols (def_of (c_defs c) x)) -> In y (c_cols c)
+}.
+
+Lemma in_flat_map_map {X} (g : X -> list uid) (f : X -> X) (l : list X) y :
+  In y (flat_map g (map f l)) -> exists a, In a l /\ In y (g (f a)).
+Proof.
+  intros H. apply in_flat_map in H. destruct H as [b [Hb Hy]]. apply in_map_iff in Hb. destruct Hb as [a [<- Ha]].
+  exists a. split; assumption.
+Qed.
+
+Lemma cols_subst K ds : (forall x y, In y (cols (def_of ds x)) -> In y K) ->
+  forall e y, In y (cols (subst ds e)) -> In y K.
+Proof.
+  intros HK. apply (expr_ind2 (fun e => forall y, In y (cols (subst ds e)) -> In y K)).
+  - intros u y H. apply (HK u y H).
+  - intros v y H. destruct H.
+  - intros e t IH y H. apply IH. exact H.
+  - intros cs dflt IHcs IHd y H. cbn [subst cols] in H. apply in_app_or in H. destruct H as [H|H].
+    + apply in_flat_map in H. destruct H as [ce [Hce Hy]]. apply in_map_iff in Hce. destruct Hce as [ce0 [<- Hce0]].
+      rewrite Forall_forall in IHcs. destruct (IHcs ce0 Hce0) as [Hc Hv]. cbn [fst snd] in Hy.
+      apply in_app_or in Hy. destruct Hy as [Hy|Hy]; [apply Hc|apply Hv]; exact Hy.
+    + destruct dflt as [x|]; [|destruct H]. apply IHd. exact H.
+  - intros o args hp part arr IHa IHp IHr y H. cbn [subst cols] in H.
+    apply in_app_or in H. destruct H as [H|H].
+    + apply in_flat_map_map in H. destruct H as [a [Ha Hy]]. rewrite Forall_forall in IHa. apply (IHa a Ha y Hy).
+    + apply in_app_or in H. destruct H as [H|H].
+      * apply in_flat_map_map in H. destruct H as [a [Ha Hy]]. rewrite Forall_forall in IHp. apply (IHp a Ha y Hy).
+      * apply in_flat_map in H. destruct H as [ka [Hka Hy]]. apply in_map_iff in Hka. destruct Hka as [ka0 [<- Hka0]].
+        rewrite Forall_forall in IHr. cbn [fst] in Hy. apply (IHr ka0 Hka0 y Hy).
+Qed.
+
+Lemma def_of_app_cases (new ds : sdefs) x : def_of (new ++ ds) x = def_of new x \/ def_of (new ++ ds) x = def_of ds x.
+Proof.
+  unfold def_of. destruct (assoc_u x new) as [e|] eqn:E.
+  - left. rewrite (assoc_u_app_found _ _ _ _ E). reflexivity.
+  - right. rewrite assoc_u_app_other; [reflexivity|]. intros C. destruct (assoc_u_in_dom _ _ C) as [v Hv]. congruence.
+Qed.
+
+Lemma base_new_defs K ds defs : (forall x y, In y (cols (def_of ds x)) -> In y K) ->
+  forall x y, In y (cols (def_of (new_defs ds defs ++ ds) x)) -> In y K.
+Proof.
+  intros HK x y H. destruct (def_of_app_cases (new_defs ds defs) ds x) as [E|E]; rewrite E in H; [|apply (HK x y H)].
+  unfold def_of in H. destruct (assoc_u x (new_defs ds defs)) as [e|] eqn:Ea; [|destruct H].
+  assert (Hin : exists dd, In dd defs /\ e = subst ds (snd dd)).
+  { clear -Ea. unfold new_defs in Ea. induction defs as [|d0 defs IH]; simpl in Ea; [discriminate|].
+    destruct (N.eqb x (snd (fst d0))); [inversion Ea; exists d0; split; [left; reflexivity|reflexivity]|].
+    destruct (IH Ea) as [dd [A B]]. exists dd. split; [right; exact A|exact B]. }
+  destruct Hin as [dd [_ ->]]. apply (cols_subst K ds HK _ y H).
+Qed.
+
+Theorem compile_base : forall a c, compile a = Some c -> Base c.
+Proof.
+  induction a as [t cs|a IH us|a IH m|a IH defs|a IH ps|a IH os|a IH n k|a IH us add|a IH|a IH defs|a IH m|a IH|l IHl r IHr on how|l IHl r IHr dis];
+    intros c C; cbn [compile] in C.
+  - inversion C; subst; clear C. constructor; cbn [base_rows c_from c_cols c_defs].
+    + intros d b x Hb Hx. apply in_map_iff in Hb. destruct Hb as [vs [<- _]]. apply (zip_row_keys _ _ _ Hx).
+    + intros x y H. unfold def_of in H.
+      destruct (assoc_u x (map (fun p : string * uid => (snd p, ECol (snd p))) cs)) as [e|] eqn:E; [|destruct H].
+      clear -E H. induction cs as [|[n u] cs IH]; simpl in E; [discriminate|].
+      destruct (N.eqb x u); [inversion E; subst; simpl in H; destruct H as [<-|[]]; left; reflexivity|right; apply IH; exact E].
+  - destruct (compile a) as [cc|] eqn:E; [|discriminate C]. inversion C; subst. destruct (IH cc eq_refl) as [B1 B2]. constructor; assumption.
+  - destruct (compile a) as [cc|] eqn:E; [|discriminate C]. inversion C; subst. destruct (IH cc eq_refl) as [B1 B2]. constructor; assumption.
+  - destruct (compile a) as [cc|] eqn:E; [|discriminate C]. inversion C; subst. destruct (IH cc eq_refl) as [B1 B2].
+    constructor; cbn [base_rows c_from c_cols c_defs]; [exact B1|]. apply base_new_defs. exact B2.
+  - destruct (compile a) as [cc|] eqn:E; [|discriminate C]. inversion C; subst. destruct (IH cc eq_refl) as [B1 B2]. constructor; assumption.
+  - destruct (compile a) as [cc|] eqn:E; [|discriminate C]. inversion C; subst. destruct (IH cc eq_refl) as [B1 B2]. constructor; assumption.
+  - destruct (compile a) as [cc|] eqn:E; [|discriminate C]. inversion C; subst. destruct (IH cc eq_refl) as [B1 B2]. constructor; assumption.
+  - destruct (compile a) as [cc|] eqn:E; [|discriminate C]. inversion C; subst. destruct (IH cc eq_refl) as [B1 B2]. constructor; assumption.
+  - destruct (compile a) as [cc|] eqn:E; [|discriminate C]. inversion C; subst. destruct (IH cc eq_refl) as [B1 B2]. constructor; assumption.
+  - destruct (compile a) as [cc|] eqn:E; [|discriminate C]. inversion C; subst. destruct (IH cc eq_refl) as [B1 B2].
+    constructor; cbn [base_rows c_from c_cols c_defs]; [exact B1|]. apply base_new_defs. exact B2.
+  - destruct m; [discriminate C|]. apply IH. exact C.
+  - discriminate C.
+  - destruct how; try discriminate C.
+    destruct (compile l) as [cl|] eqn:El; [|discriminate C]. destruct (compile r) as [cr|] eqn:Er; [|discriminate C].
+    inversion C; subst; clear C. destruct (IHl cl eq_refl) as [L1 L2]. destruct (IHr cr eq_refl) as [R1 R2].
+    constructor; cbn [base_rows c_from c_cols c_defs].
+    + intros d b x Hb Hx. apply in_flat_map in Hb. destruct Hb as [bl [Hbl Hb]]. apply in_map_iff in Hb.
+      destruct Hb as [br [<- Hbr]]. apply filter_In in Hbr. destruct Hbr as [Hbr _]. rewrite map_app in Hx.
+      apply in_or_app. apply in_app_or in Hx. destruct Hx as [Hx|Hx]; [left; apply (L1 d bl x Hbl Hx)|right; apply (R1 d br x Hbr Hx)].
+    + intros x y H. apply in_or_app. destruct (def_of_app_cases (c_defs cr) (c_defs cl) x) as [E|E]; rewrite E in H;
+        [right; apply (R2 x y H)|left; apply (L2 x y H)].
+  - destruct (compile l) as [cl|] eqn:El; [|discriminate C]. destruct (compile r) as [cr|] eqn:Er; [|discriminate C].
+    destruct (union_right_select cl cr) as [rsel|]; [|discriminate C]. inversion C; subst; clear C.
+    constructor; cbn [base_rows c_from c_cols c_defs].
+    + intros d b x Hb Hx. apply in_map_iff in Hb. destruct Hb as [vs [<- _]]. apply (zip_row_keys _ _ _ Hx).
+    + intros x y H. unfold def_of in H.
+      destruct (assoc_u x (map (fun u : uid => (u, ECol u)) (q_select (c_q cl)))) as [e|] eqn:E; [|destruct H].
+      clear -E H. induction (q_select (c_q cl)) as [|u L IH]; simpl in E; [discriminate|].
+      destruct (N.eqb x u); [inversion E; subst; simpl in H; destruct H as [<-|[]]; left; reflexivity|right; apply IH; exact E].
+Qed.
+
+Definition join_compiled (cl cr : compiled) (on : expr) : compiled :=
+  let ds := c_defs cr ++ c_defs cl in
+  let q := c_q cl in
+  {| c_from := FRows (fun d =>
+                  flat_map (fun bl => map (fun br => (bl ++ br)%list)
+                                          (filter (fun br => on_holds ds on (bl ++ br)%list) (base_rows d cr)))
+                           (base_rows d cl));
+     c_cols := c_cols cl ++ c_cols cr;
+     c_q := {| q_select := q_select q ++ q_select (c_q cr); q_part := q_part q; q_group := q_group q;
+               q_where := q_where q ++ q_where (c_q cr); q_having := q_having q;
+               q_order := q_order q; q_limit := q_limit q; q_offset := q_offset q; q_summ := q_summ q |};
+     c_labels := c_labels cr ++ c_labels cl;
+     c_defs := ds;
+     c_scope := c_scope cl ++ c_scope cr |}.
+
+Lemma eval_on_cols e (r r' : row) i : (forall x, In x (cols e) -> get r x = get r' x) -> eval [] (i, r) e = eval [] (i, r') e.
+Proof. intros H. apply eval_rel; [constructor|]. split; [reflexivity|exact H]. Qed.
+
+Lemma Forall2_flat_map {A B C D} (R1 : A -> B -> Prop) (R2 : C -> D -> Prop) (f : A -> list C) (g : B -> list D) l l' :
+  Forall2 R1 l l' -> (forall a b, R1 a b -> Forall2 R2 (f a) (g b)) -> Forall2 R2 (flat_map f l) (flat_map g l').
+Proof.
+  intros H HF. induction H as [|a b l l' Hab _ IH]; simpl; [constructor|]. apply Forall2_app; [apply HF; exact Hab|exact IH].
+Qed.
+
+Lemma filter_flat_map {A B} (p : B -> bool) (f : A -> list B) l : filter p (flat_map f l) = flat_map (fun x => filter p (f x)) l.
+Proof. induction l as [|x l IH]; simpl; [reflexivity|]. rewrite filter_app, IH. reflexivity. Qed.
+
+Lemma flat_map_filter_if {A B} (p : A -> bool) (f : A -> list B) l :
+  flat_map (fun x => if p x then f x else []) l = flat_map f (filter p l).
+Proof. induction l as [|x l IH]; simpl; [reflexivity|]. destruct (p x); simpl; rewrite IH; reflexivity. Qed.
+
+Lemma flat_map_ext_in {A B} (f g : A -> list B) l : (forall x, In x l -> f x = g x) -> flat_map f l = flat_map g l.
+Proof. intros H. induction l as [|x l IH]; simpl; [reflexivity|]. rewrite (H x (or_introl eq_refl)), IH; [reflexivity|]. intros y Hy. apply H. right. exact Hy. Qed.
+
+Lemma filter_filter_comm {A} (p q : A -> bool) l : filter p (filter q l) = filter q (filter p l).
+Proof. induction l as [|x l IH]; simpl; [reflexivity|]. destruct (q x) eqn:Q, (p x) eqn:P; simpl; rewrite ?Q, ?P, IH; reflexivity. Qed.
+
+Lemma filter_false {A} (l : list A) : filter (fun _ => false) l = [].
+Proof. induction l; simpl; auto. Qed.
+
+Lemma join_case d sl sr cl cr on (UL UR : list uid) :
+  Inv d sl cl -> Aux cl -> Inv d sr cr -> Aux cr -> Base cl -> Base cr ->
+  keys_in UL (rows sl) -> keys_in UR (rows sr) ->
+  q_summ (c_q cl) = false -> no_limit (c_q cl) = true -> is_nil (q_order (c_q cl)) = true -> q_part (c_q cl) = [] -> ds_elem_b (c_defs cl) = true ->
+  q_summ (c_q cr) = false -> no_limit (c_q cr) = true -> is_nil (q_order (c_q cr)) = true -> ds_elem_b (c_defs cr) = true ->
+  elem on = true -> scoped (c_scope cl ++ c_scope cr) on = true ->
+  (forall x, In x (c_scope cl) -> ~ In x UR) -> (forall x, In x (c_scope cr) -> ~ In x UL) ->
+  (forall x, In x (c_cols cl) -> ~ In x (c_cols cr)) ->
+  (forall x, In x (map fst (c_defs cl)) -> ~ In x (map fst (c_defs cr))) ->
+  (forall x, In x (q_select (c_q cl)) -> ~ In x (map fst (c_labels cr))) ->
+  Inv d (do_join sl sr on JInner) (join_compiled cl cr on) /\ Aux (join_compiled cl cr on).
+Proof.
+  intros Il Al Ir Ar Bl Br KL KR SuL NLl NOl PL DEl SuR NLr NOr DEr Eon Son DsR DsL Dc Dd Dl.
+  pose proof (ds_elem_b_spec _ DEl) as Dl'. pose proof (ds_elem_b_spec _ DEr) as Dr'.
+  destruct (a_nosumm cl Al SuL) as [HhL HgL]. destruct (a_nosumm cr Ar SuR) as [HhR HgR].
+  set (dsl := c_defs cl) in *. set (dsr := c_defs cr) in *. set (ds := dsr ++ dsl).
+  set (Bsl := base_rows d cl). set (Bsr := base_rows d cr).
+  set (wl := fun b : row => all_true dsl (q_where (c_q cl)) (mk1 b)).
+  set (wr := fun b : row => all_true dsr (q_where (c_q cr)) (mk1 b)).
+  (* reference rows of the operands, related to the FROM rows that pass WHERE *)
+  destruct Il as [Rl Sl Gl]. destruct Ir as [Rr Sr Gr].
+  rewrite (final_units_rows d cl Al SuL NLl NOl) in Rl. cbv zeta in Rl.
+  apply (units_plain_out (c_scope cl) dsl _ _ Dl') in Rl. fold Bsl wl in Rl.
+  rewrite (final_units_rows d cr Ar SuR NLr NOr) in Rr. cbv zeta in Rr.
+  apply (units_plain_out (c_scope cr) dsr _ _ Dr') in Rr. fold Bsr wr in Rr.
+  (* definitions of the joined query *)
+  assert (DefL : forall x, In x (map fst dsl) -> def_of ds x = def_of dsl x).
+  { intros x Hx. unfold ds. apply def_of_app_other. intros C. apply (Dd x Hx C). }
+  assert (DefR : forall x, In x (map fst dsr) -> def_of ds x = def_of dsr x).
+  { intros x Hx. unfold ds, def_of. destruct (assoc_u_in_dom _ _ Hx) as [e He]. rewrite (assoc_u_app_found _ _ _ _ He), He. reflexivity. }
+  assert (ElemDs : ds_elem ds).
+  { intros x. destruct (def_of_app_cases dsr dsl x) as [E|E]; unfold ds; rewrite E; [apply Dr'|apply Dl']. }
+  (* a FROM row of one operand is read unchanged inside a joined FROM row *)
+  assert (GetL : forall bl br k, In bl Bsl -> In br Bsr -> In k (c_cols cl) -> get (bl ++ br) k = get bl k).
+  { intros bl br k Hbl Hbr Hk. apply get_app_nokey_r. intros C. apply (Dc k Hk). apply (b_keys cr Br d br k Hbr C). }
+  assert (GetR : forall bl br k, In bl Bsl -> In br Bsr -> In k (c_cols cr) -> get (bl ++ br) k = get br k).
+  { intros bl br k Hbl Hbr Hk. apply get_app_nokey_l. intros C. apply (Dc k (b_keys cl Bl d bl k Hbl C) Hk). }
+  assert (EvL : forall bl br x, In bl Bsl -> In br Bsr -> In x (map fst dsl) ->
+                 eval [] (0%nat, (bl ++ br)%list) (def_of ds x) = eval [] (0%nat, bl) (def_of dsl x)).
+  { intros bl br x Hbl Hbr Hx. rewrite (DefL x Hx). apply eval_on_cols. intros k Hk.
+    apply (GetL bl br k Hbl Hbr). apply (b_defs cl Bl x k Hk). }
+  assert (EvR : forall bl br x, In bl Bsl -> In br Bsr -> In x (map fst dsr) ->
+                 eval [] (0%nat, (bl ++ br)%list) (def_of ds x) = eval [] (0%nat, br) (def_of dsr x)).
+  { intros bl br x Hbl Hbr Hx. rewrite (DefR x Hx). apply eval_on_cols. intros k Hk.
+    apply (GetR bl br k Hbl Hbr). apply (b_defs cr Br x k Hk). }
+  (* WHERE of the joined query = WHERE of the left row and WHERE of the right row *)
+  assert (WhL : forall bl br, In bl Bsl -> In br Bsr -> all_true ds (q_where (c_q cl)) (mk1 (bl ++ br)%list) = wl bl).
+  { intros bl br Hbl Hbr. unfold wl, all_true. apply forallb_ext_in'. intros p Hp. f_equal. unfold ev, mk1. cbn [fst snd].
+    rewrite (subst_ext_on p dsl ds) by (intros x Hx; apply DefL; apply (a_where_dom cl Al p Hp x Hx)).
+    apply eval_on_cols. intros k Hk. apply (GetL bl br k Hbl Hbr). apply (cols_subst _ dsl (b_defs cl Bl) p k Hk). }
+  assert (WhR : forall bl br, In bl Bsl -> In br Bsr -> all_true ds (q_where (c_q cr)) (mk1 (bl ++ br)%list) = wr br).
+  { intros bl br Hbl Hbr. unfold wr, all_true. apply forallb_ext_in'. intros p Hp. f_equal. unfold ev, mk1. cbn [fst snd].
+    rewrite (subst_ext_on p dsr ds) by (intros x Hx; apply DefR; apply (a_where_dom cr Ar p Hp x Hx)).
+    apply eval_on_cols. intros k Hk. apply (GetR bl br k Hbl Hbr). apply (cols_subst _ dsr (b_defs cr Br) p k Hk). }
+  (* the FROM rows of the joined query that pass its WHERE *)
+  set (cj := join_compiled cl cr on).
+  assert (EW : filter (fun b => all_true (c_defs cj) (q_where (c_q cj)) (mk1 b)) (base_rows d cj)
+               = flat_map (fun bl => map (fun br => (bl ++ br)%list) (filter (fun br => on_holds ds on (bl ++ br)%list) (filter wr Bsr)))
+                          (filter wl Bsl)).
+  { unfold base_rows at 1. unfold cj, join_compiled. cbn [c_from c_defs c_q q_where]. fold dsl dsr ds Bsl Bsr.
+    rewrite filter_flat_map, <- flat_map_filter_if. apply flat_map_ext_in. intros bl Hbl.
+    rewrite filter_map_comm.
+    rewrite (filter_ext_in _ (fun br => wl bl && wr br)).
+    2:{ intros br Hbr. apply filter_In in Hbr. destruct Hbr as [Hbr _]. rewrite all_true_app, (WhL bl br Hbl Hbr), (WhR bl br Hbl Hbr). reflexivity. }
+    destruct (wl bl).
+    - cbn [andb]. rewrite filter_filter_comm. reflexivity.
+    - cbn [andb]. rewrite filter_false. reflexivity. }
+  (* a joined reference row and the joined FROM row agree *)
+  assert (AgJ : forall lr rr bl br, In lr (rows sl) -> In rr (rows sr) -> In bl Bsl -> In br Bsr ->
+                 agrees_on (c_scope cl) dsl (mk1 bl) lr -> agrees_on (c_scope cr) dsr (mk1 br) rr ->
+                 agrees_on (c_scope cl ++ c_scope cr) ds (mk1 (bl ++ br)%list) (lr ++ rr)%list).
+  { intros lr rr bl br Hlr Hrr Hbl Hbr Al0 Ar0 x Hx. unfold evd, mk1. cbn [fst snd]. apply in_app_or in Hx. destruct Hx as [Hx|Hx].
+    - rewrite get_app_nokey_r by (intros C; apply (DsR x Hx); apply (KR rr x Hrr C)).
+      rewrite (Al0 x Hx). unfold evd, mk1. cbn [fst snd]. symmetry. apply (EvL bl br x Hbl Hbr). apply (a_scope_dom cl Al x Hx).
+    - rewrite get_app_nokey_l by (intros C; apply (DsL x Hx); apply (KL lr x Hlr C)).
+      rewrite (Ar0 x Hx). unfold evd, mk1. cbn [fst snd]. symmetry. apply (EvR bl br x Hbl Hbr). apply (a_scope_dom cr Ar x Hx). }
+  assert (SuJ : q_summ (c_q cj) = false) by exact SuL.
+  assert (NLJ : no_limit (c_q cj) = true) by exact NLl.
+  assert (NOJ : is_nil (q_order (c_q cj)) = true) by exact NOl.
+  assert (AUX : Aux cj).
+  { destruct Al as [A1 A2 A3 A4 A5 A6 A7 A8 A9 A10]. destruct Ar as [B1 B2 B3 B4 B5 B6 B7 B8 B9 B10].
+    constructor; unfold cj, join_compiled; cbn [c_scope c_defs c_q c_labels q_select q_part q_group q_where q_having q_order q_summ q_limit q_offset]; fold dsl dsr.
+    - intros x Hx. rewrite map_app. apply in_or_app. apply in_app_or in Hx. destruct Hx as [Hx|Hx]; [right; apply A1|left; apply B1]; exact Hx.
+    - intros x Hx. apply in_or_app. apply in_app_or in Hx. destruct Hx as [Hx|Hx]; [left; apply A2|right; apply B2]; exact Hx.
+    - intros x Hx. rewrite map_app. apply in_or_app. apply in_app_or in Hx. destruct Hx as [Hx|Hx]; [right; apply A3|left; apply B3]; exact Hx.
+    - intros x Hx. rewrite PL in Hx. destruct Hx.
+    - intros x Hx. rewrite HgL in Hx. destruct Hx.
+    - intros p Hp x Hx. rewrite map_app. apply in_or_app. apply in_app_or in Hp. destruct Hp as [Hp|Hp]; [right; apply (A6 p Hp x Hx)|left; apply (B6 p Hp x Hx)].
+    - intros p Hp. rewrite HhL in Hp. destruct Hp.
+    - intros o Ho x Hx. rewrite map_app. apply in_or_app. right. apply (A8 o Ho x Hx).
+    - intros _. split; assumption.
+    - exact A10. }
+  split; [|exact AUX].
+  constructor.
+  - rewrite (final_units_rows d cj AUX SuJ NLJ NOJ). cbv zeta. rewrite EW.
+    apply (units_plain_in (c_scope cj) (c_defs cj) _ _ ElemDs).
+    cbn [rows do_join]. rewrite app_nil_r.
+    apply (Forall2_flat_map (fun lr bl => agrees_on (c_scope cl) dsl (mk1 bl) lr /\ In lr (rows sl) /\ In bl Bsl)).
+    + clear -Rl. assert (H : Forall2 (fun lr bl => agrees_on (c_scope cl) dsl (mk1 bl) lr /\ In bl (filter wl Bsl)) (rows sl) (filter wl Bsl)).
+      { apply Forall2_flip'. eapply Forall2_impl'; [|apply (Forall2_with_In _ _ _ (Forall2_flip' _ _ _ Rl))]. intros b r [H1 H2]. split; assumption. }
+      pose proof (Forall2_with_In _ _ _ H) as H'. eapply Forall2_impl'; [|exact H']. intros lr bl [[H1 H2] H3].
+      repeat split; [exact H1|exact H3|]. apply filter_In in H2. tauto.
+    + intros lr bl [Agl [Hlr Hbl]]. unfold join_branch.
+      assert (Hin : Forall2 (fun rr br => agrees_on (c_scope cr) dsr (mk1 br) rr /\ In rr (rows sr) /\ In br Bsr) (rows sr) (filter wr Bsr)).
+      { assert (H : Forall2 (fun rr br => agrees_on (c_scope cr) dsr (mk1 br) rr /\ In br (filter wr Bsr)) (rows sr) (filter wr Bsr)).
+        { apply Forall2_flip'. eapply Forall2_impl'; [|apply (Forall2_with_In _ _ _ (Forall2_flip' _ _ _ Rr))]. intros b r [H1 H2]. split; assumption. }
+        pose proof (Forall2_with_In _ _ _ H) as H'. eapply Forall2_impl'; [|exact H']. intros rr br [[H1 H2] H3].
+        repeat split; [exact H1|exact H3|]. apply filter_In in H2. tauto. }
+      assert (Hf : Forall2 (fun rr br => agrees_on (c_scope cr) dsr (mk1 br) rr /\ In rr (rows sr) /\ In br Bsr)
+                           (filter (on_true on lr) (rows sr)) (filter (fun br => on_holds ds on (bl ++ br)%list) (filter wr Bsr))).
+      { apply Forall2_filter; [exact Hin|]. intros rr br [Agr [Hrr Hbr]]. unfold on_true, on_holds. f_equal.
+        apply (subst_elem on Eon ds (mk1 (bl ++ br)%list) [] 0%nat (lr ++ rr)%list).
+        eapply agrees_on_incl; [apply scoped_incl; exact Son|]. apply (AgJ lr rr bl br Hlr Hrr Hbl Hbr Agl Agr). }
+      assert (Goal2 : Forall2 (fun r b => agrees_on (c_scope cj) (c_defs cj) (mk1 b) r)
+                              (map (fun rr => (lr ++ rr)%list) (filter (on_true on lr) (rows sr)))
+                              (map (fun br => (bl ++ br)%list) (filter (fun br => on_holds ds on (bl ++ br)%list) (filter wr Bsr)))).
+      { apply Forall2_map_l. apply Forall2_map_r. eapply Forall2_impl'; [|exact Hf]. intros rr br [Agr [Hrr Hbr]].
+        apply (AgJ lr rr bl br Hlr Hrr Hbl Hbr Agl Agr). }
+      destruct (filter (on_true on lr) (rows sr)); exact Goal2.
+  - cbn [sel do_join]. unfold cj, join_compiled. cbn [c_q c_labels q_select]. rewrite map_app, Sl, Sr. f_equal.
+    + apply map_ext_in. intros u Hu. rewrite label_app_other by (apply Dl; exact Hu). reflexivity.
+    + apply map_ext_in. intros u Hu. f_equal. unfold label.
+      destruct (assoc_u_in_dom _ _ (a_sel_labels cr Ar u Hu)) as [n Hn]. rewrite (assoc_u_app_found _ _ _ _ Hn), Hn. reflexivity.
+  - cbn [group do_join]. symmetry. exact PL.
+Qed.
+
 (* ---------- the theorem ---------- *)
 Theorem compile_invariant d : forall a c, compile a = Some c -> flat_ok a = true -> Inv d (sem_ref d a) c /\ Aux c.
 Proof.
@@ -1026,7 +1311,26 @@ Proof.
     apply (summarize_case d (sem_ref d a) cc defs); assumption.
   - destruct m as [m|]; [simpl in C; discriminate C|]. simpl in C, F. cbn [sem_ref do_alias]. apply IH; assumption.
   - simpl in C. discriminate C.
-  - simpl in C. discriminate C.
+  - cbn [compile] in C. cbn [flat_ok] in F. destruct how; try discriminate C.
+    destruct (compile l) as [cl|] eqn:El; [|discriminate C]. destruct (compile r) as [cr|] eqn:Er; [|discriminate C].
+    inversion C; subst; clear C.
+    apply andb_prop in F. destruct F as [F F3]. apply andb_prop in F. destruct F as [F Fon]. apply andb_prop in F. destruct F as [Fl Fr].
+    repeat (apply andb_prop in F3; let H := fresh "G" in destruct F3 as [F3 H]).
+    repeat (apply andb_prop in G5; let H := fresh "P" in destruct G5 as [G5 H]).
+    repeat (apply andb_prop in F3; let H := fresh "Q" in destruct F3 as [F3 H]).
+    destruct (IHl cl eq_refl Fl) as [Il Al]. destruct (IHr cr eq_refl Fr) as [Ir Ar].
+    pose proof (compile_base l cl El) as Bl. pose proof (compile_base r cr Er) as Br.
+    cbn [sem_ref]. fold (join_compiled cl cr on).
+    apply negb_true_iff in F3. apply negb_true_iff in G5.
+    apply (join_case d (sem_ref d l) (sem_ref d r) cl cr on (ast_uids l) (ast_uids r)); try assumption.
+    + apply (rk_rows _ _ (ref_keys d l)).
+    + apply (rk_rows _ _ (ref_keys d r)).
+    + destruct (q_part (c_q cl)); [reflexivity|discriminate].
+    + apply disjointb_spec. assumption.
+    + apply disjointb_spec. assumption.
+    + apply disjointb_spec. assumption.
+    + apply disjointb_spec. assumption.
+    + apply disjointb_spec. assumption.
   - cbn [compile] in C. cbn [flat_ok] in F.
     destruct (compile l) as [cl|] eqn:El; [|discriminate C]. destruct (compile r) as [cr|] eqn:Er; [|discriminate C].
     destruct (union_right_select cl cr) as [rsel|] eqn:Es; [|discriminate C]. inversion C; subst; clear C.
